@@ -1006,6 +1006,9 @@ def splice_helpers(prog: Program, paths: list[Path], _depth: int = 0) -> list[Pa
 
             def repl(tm, x=x, r=r):
                 tm2 = T.rewrite(tm, lambda y: r if y == x else None)
+                if tm2 is not tm and r[0] == "const":
+                    # the helper answered with a constant: conditional expressions on it are decided
+                    tm2 = T.rewrite(tm2, lambda y: (y[2] if y[1][1] else y[3]) if (y[0] == "ifexp" and y[1][0] == "const") else None)
                 if tm2 is not tm and r[0] in ("tuple", "list"):
                     # `a, b = _helper(x)`: the components of the returned display
                     def fold(y, r=r):
@@ -1019,7 +1022,12 @@ def splice_helpers(prog: Program, paths: list[Path], _depth: int = 0) -> list[Pa
 
             pev = [tuple(repl(y) if is_term(y) else y for y in e) for e in p.events]
             exit_ = p.exit if len(p.exit) == 1 else (p.exit[0], repl(p.exit[1]))
-            out.append(Path(pev[:at] + qev + pev[at:], exit_, dict(p.env)))
+            evs = pev[:at] + qev + pev[at:]
+            # a helper exit that answers with a constant decides the caller's test on the spot: the other branch is infeasible
+            if any(e[0] == "guard" and e[1][0] == "const" and bool(e[1][1]) != e[2] for e in evs):
+                continue
+            evs = [e for e in evs if not (e[0] == "guard" and e[1][0] == "const")]
+            out.append(Path(evs, exit_, dict(p.env)))
     return splice_helpers(prog, out, _depth + 1) if changed else out
 
 
